@@ -37,6 +37,7 @@ theorem blockEvs_nil_of_not_mem {P : Prog} {l : Leaf} (hl : l ∉ P.leafIds) {b 
         intro xk hxk e
         exact this (List.mem_map.mpr ⟨xk, hxk, e⟩)
       | dropAfter => rfl
+      | moveOut => rfl
     · intro t ht
       rw [leafEvs_eq_nil]
       intro xk hxk e
@@ -95,6 +96,7 @@ def Act.VarsOnly : Act → Prop
   | .use p _ => p.IsVar
   | .give p => p.IsVar
   | .dropAfter => True
+  | .moveOut => True
 
 def Stmt.VarsOnly (st : Stmt) : Prop := (∀ a ∈ st.acts, a.VarsOnly) ∧ ∀ p ∈ st.tgts, p.IsVar
 
@@ -265,6 +267,41 @@ def rebindProg : Prog where
 theorem rebindProg_wfb : rebindProg.wfb = true := by decide +kernel
 example : Good rebindProg :=
   lin_sound_exec rebindProg rebindProg_wfb (by decide +kernel) (by decide +kernel)
+
+/-! ## Non-vacuity for subscript borrows of a linear array
+
+    ```
+    def f(qs: array[qubit, 2], i: int) -> None:     # qs borrowed: one linear leaf 0; i = leaf 1
+        h(qs[i])        # visit i; bind %tmp0 (leaf 2); __getitem__(qs, %tmp0): lend qs, hand back;
+                        # after the call: bind %tmp1 (leaf 3); __setitem__(qs, %tmp0, %tmp1); hand qs back
+    ``` -/
+
+def arr : Place := vr 0 0
+def tmp (x : Leaf) : Place := ⟨[(x, false)], some x, true⟩
+
+def subscriptProg : Prog where
+  borrowedVars := [0]
+  borrowedLeaves := [0]
+  blocks := [0, 1]
+  entry := 0
+  exit := 1
+  exitReachable := true
+  row := fun b => match b with | 0 => [0, 1] | _ => [0]
+  rowLin := fun _ => [0]
+  stmts := fun b => match b with
+    | 0 => [⟨[.use (vr 1 1 false) false, .give (tmp 2), .use arr true, .use (tmp 2) false, .give arr,
+              .give (tmp 3), .use arr true, .use (tmp 2) false, .use (tmp 3) false, .give arr, .give arr], [], false⟩]
+    | _ => []
+  succ := fun b => match b with | 0 => [1] | _ => []
+
+theorem subscriptProg_wfb : subscriptProg.wfb = true := by decide +kernel
+example : Good subscriptProg :=
+  lin_sound_exec subscriptProg subscriptProg_wfb (by decide +kernel) (by decide +kernel)
+
+/-- moving the element out instead is rejected -/
+def subscriptBad : Prog := { subscriptProg with stmts := fun b => if b = 0 then [⟨[.moveOut], [], false⟩] else [] }
+example : (match checkCfg subscriptBad with | .error e => some e | .ok _ => none) = some .moveOutOfSubscript := by
+  decide +kernel
 
 /-! ## The full completeness statement is false of the code (gaps G1, G2)
 
